@@ -5,6 +5,7 @@ meta.json (property, what it needs to manifest, what was run, which checks caugh
 import json, os, shutil, sys
 
 SRC = '/tmp/seedout'
+ROUNDS = [('/tmp/seedout', 0), ('/tmp/seedout2', 2)]
 DST = os.path.join(os.path.dirname(os.path.dirname(os.path.abspath(__file__))), 'seeded')
 
 NEEDS = {
@@ -46,14 +47,55 @@ NEEDS = {
     'C18-2': 'hexdump walks the object as char: bytes >= 0x80 print sign-extended',
     'C20-1': 'yield list created by CO_RETURN not stored back: CO_RETURN placed before the first CO_YIELD drops all yields',
     'C20-2': 'yield cursor stored in the handler (per expectation) instead of the coroutine frame: >=2 calls on one expectation resumed interleaved',
+    'C01-3': 'move constructor of expectations<movable> re-hooks matchers in reverse order: movable mock, >=2 overlapping live expectations (newer FORBID_CALL), an odd number of moves, a call matching both',
+    'C01-4': 'order() sums per-sequence costs with an incomplete wrap guard: IN_SEQUENCE(s1,s2) expectation with a skippable predecessor in s1 and an unsatisfied required predecessor in s2',
+    'C02-3': 'multi-sequence distance is the sum instead of the maximum: expectation in two sequences with skippable predecessors in both vs a competitor whose distance lies between max and sum',
+    'C02-4': 'predecessors retired only once the lower bound is reached (D1 re-introduced)',
+    'C03-3': 'is_satisfied() returns !is_unfulfilled(): short expectation named in a no-match listing (or its mock destroyed) then queried',
+    'C03-4': 'lock released around trace_params between find() and run_actions(): several threads call the same nearly exhausted expectation (no data race; atomicity only)',
+    'C04-3': 'building the "Tried" text sets the already-reported flag even when the saturated listing is sent: saturated + short active expectation, surplus call, end of life of the short one (report missing)',
+    'C04-4': '~call_matcher reports only when no exception is propagating: short expectation released during stack unwinding (report missing)',
+    'C05-3': 'guard !is_retired removed from retire_predecessors: [destruction o1, destruction o2, call C] with o2 dying first then o1 (D13 re-introduced)',
+    'C05-4': 'find() keeps the highest cost: one call matching >=2 sequenced expectations none of which is first in line',
+    'C06-3': '~sequence_type lists only unsatisfied entries: sequence destroyed while a satisfied-but-unsaturated entry is registered',
+    'C06-4': 'destruction requirement retires itself before counting (never leaves its sequence): died requirement listed at sequence teardown (D8 re-introduced)',
+    'C07-3': 'forbidden-call report prints the expectation\'s parameter description instead of the actual arguments: forbid with a matcher (not a literal)',
+    'C07-4': 'mock_destroyed resets the sequence handler (limits and count): forbid outlives its mock, then flags queried',
+    'C08-3': 'side effects skipped once the expectation was listed in a no-match report: unmatched call, then an accepted call of an expectation with SIDE_EFFECT',
+    'C08-4': 'the WITH clause that failed last is evaluated first: >=2 WITH clauses, a call failing a later clause, then another call',
+    'C09-3': '_13 and _15 swapped inside SIDE_EFFECT: 15-ary function with distinguishable 13th and 15th arguments',
+    'C09-4': 'THROW handler is a function-local static: the same THROW source line creates two expectations with different captured values',
+    'C10-3': '!*m rewritten to *!m: negation directly outside a dereference applied to a null pointer',
+    'C10-4': 'class-type lvalue operands held by reference: matcher built from a named std::string that is changed before the call',
+    'C11-3': 'lvalue std::vector element list viewed in place: container changed after the matcher was created',
+    'C11-4': 'range_is_permutation removes a used matcher with erase() instead of swap-remove: >=3 overlapping element matchers (outcome still that of a range-order greedy assignment)',
+    'C12-3': 'RT_TIMES loses its lock: IN_SEQUENCE(s) before RT_TIMES while another thread uses s (TSan)',
+    'C12-4': '~lifetime_monitor decides on a stale read of `died` taken before the lock: requirement released while another thread destroys the object inside a mock call (atomicity, no data race)',
+    'C13-3': 'copy assignment lets an unwatched target adopt the source\'s requirement: B = A with a requirement on A only, B destroyed first',
+    'C13-4': 'notify() returns before recording the death when out of sequence: sequenced requirement, object destroyed early, then query / release',
+    'C14-3': 'notify() returns early on an out-of-sequence death: later release of the requirement writes into the freed object',
+    'C14-4': 'move constructor of expectations<movable> re-hooks active expectations in reverse order (no memory error; behaviour on the moved mock changes)',
+    'C15-3': 'moved mock loses its saturated list: no-match report after a move names live expectations instead of the saturated one',
+    'C15-4': 'call against a destroyed sequence object is reported non-fatal: passed expectation called after its sequence was destroyed',
+    'C16-3': 'OK report suppressed once the expectation was named in a no-match listing: unmatched call, then accepted calls',
+    'C16-4': 'one-argument set_reporter resets the OK reporter to the default: set_reporter(rf, orf) then set_reporter(rf2) then an accepted call',
+    'C17-3': 'trace_agent shares one static stream: accepted call that makes another mock call (nested) while a tracer is alive',
+    'C17-4': 'tracer pointer is thread_local: tracer alive on one thread, accepted call on another thread',
+    'C18-3': 'null guard moved from print() into the default printer<T>: user-provided printer<T> for a null-comparable T is handed null values',
+    'C18-4': 'streamable collections (std::string, string_view) streamed without stream_sentry: string printed into a stream with non-zero width',
+    'C20-3': 'CO_RETURN / CO_THROW functor moved into the first coroutine frame: >=2 calls on one expectation whose expression uses a captured class-type local',
+    'C20-4': 'all CO_YIELD expressions evaluated up-front: a throwing non-first CO_YIELD, or LR_CO_YIELD reading state changed between resumes',
 }
 
 
 def main():
     os.makedirs(DST, exist_ok=True)
     rows = []
-    for prop in sorted(os.listdir(SRC)):
-        d = os.path.join(SRC, prop)
+    for SRCD, off in ROUNDS:
+      if not os.path.isdir(SRCD):
+        continue
+      for prop in sorted(os.listdir(SRCD)):
+        d = os.path.join(SRCD, prop)
         if not os.path.isdir(d) or not prop.startswith('C'):
             continue
         for n in (1, 2):
@@ -64,7 +106,7 @@ def main():
                 r = json.load(open(ev))
             except Exception:
                 continue
-            sid = '%s-%d' % (prop, n)
+            sid = '%s-%d' % (prop, n + off)
             if not r.get('confirmed'):
                 rows.append((sid, 'NOT CONFIRMED', r.get('caught_by')))
                 continue
@@ -74,13 +116,20 @@ def main():
             shutil.copy(os.path.join(d, 'demo%d.cpp' % n), os.path.join(out, 'demo.cpp'))
             if os.path.exists(os.path.join(d, 'README.md')):
                 shutil.copy(os.path.join(d, 'README.md'), os.path.join(out, 'README.md'))
-            meta = dict(id=sid, property=prop, author='independent sub-agent given only the property record and a scratch worktree',
+            old_meta = {}
+            if os.path.exists(os.path.join(out, 'meta.json')):
+                old_meta = json.load(open(os.path.join(out, 'meta.json')))
+            meta = dict(id=sid, property=prop, round=1 if off == 0 else 2,
+                        author='independent sub-agent given only the property record and a scratch worktree' + ('' if off == 0 else ' (second round: also told, in one line each, which two changes had already been made for the property)'),
                         needs_to_manifest=NEEDS.get(sid, ''),
                         confirmed=dict(applies=r.get('applies'), pinned_suite_passes_with_change=r.get('suite_passes_with_change'),
                                        demo_fails_with_change=r['demo_with_change'].get('failed'), demo_passes_without_change=not r['demo_without_change'].get('failed'),
                                        how='tools/seed_eval.py: scratch worktree of /repo HEAD, git apply, baseline.py (594 pinned tests), demo compiled and run against both trees'),
                         checks_run={c: dict(exit=x['exit'], violation_keys=x['keys'][:4]) for c, x in r['checks'].items()},
                         caught_by=r.get('caught_by'))
+            for k in ('history', 'note'):
+                if k in old_meta:
+                    meta[k] = old_meta[k]
             json.dump(meta, open(os.path.join(out, 'meta.json'), 'w'), indent=1)
             rows.append((sid, 'confirmed', r.get('caught_by')))
     for row in rows:
